@@ -15,7 +15,7 @@ import tlaval
 import tlc
 import tracecheck
 
-KEYS = ["a", "b", "c"]
+KEYS = ["a", "b", "c", "d"]
 VALS = ["v1", "v2", "v3"]
 
 
@@ -186,9 +186,18 @@ def check(ctx):
                        "attributes; values are hashable and pairwise unequal"]
     n1 = replay_graph(ctx, al, "MultiKeyDict", "MultiKeyDict_quick.cfg", False)
     n2 = replay_graph(ctx, al, "StrategyDict", "StrategyDict_quick.cfg", True)
-    ctx.exhaustive = True
+    if ctx.thorough:      # 4 keys x 3 values x key tuples <= 2: full graphs again (65k + 223k transitions)
+        replay_graph(ctx, al, "MultiKeyDict", "MultiKeyDict_thorough.cfg", False)
+        replay_graph(ctx, al, "StrategyDict", "StrategyDict_thorough.cfg", True)
     # M3
-    nwalks, length = (60, 200) if not ctx.thorough else (600, 400)
+    nwalks, length = (60, 200) if not ctx.thorough else (60, 300)
+    batches = 1 if not ctx.thorough else 6          # one TLC run per batch (the JSON of a batch stays ~10 MB)
+    for b in range(batches):
+        m3_batch(ctx, al, nwalks, length)
+    ctx.exhaustive = True
+
+
+def m3_batch(ctx, al, nwalks, length):
     traces = []
     for i in range(nwalks):
         traces.append(record_walk(ctx, al, sd=(i % 2 == 1), nkeys=8, nvals=5, length=length))
